@@ -28,7 +28,8 @@ def main():
     import netgen
     if job.get("tflite"):
         model_path = job["tflite"]
-        res["net_desc"] = os.path.basename(model_path)
+        res["net_desc"] = [os.path.basename(model_path)]
+        res["net_name"] = "corpus:" + os.path.basename(model_path)
     else:
         net = netgen.generate(job["family"], job["seed"])
         model_path = os.path.join(out_dir, "model.tflite")
